@@ -437,4 +437,233 @@ pub proof fn lemma_blocks_acc_step(r: int, hv: int, hv2: int, input: Seq<u8>, i:
     assert((hv % pl_p()) + le_nat(m) + hib == (hv % pl_p()) + blk);
 }
 
+// ------------------------------------------------------------------------------------------------
+// the RFC accumulator poly_acc: composition over block boundaries
+// ------------------------------------------------------------------------------------------------
+pub proof fn lemma_poly_acc_lt(r: nat, acc: nat, msg: Seq<u8>)
+    requires
+        acc < poly_p(),
+    ensures
+        poly_acc(r, acc, msg) < poly_p(),
+    decreases msg.len(),
+{
+    lemma_poly_p_is_rfc_prime();
+    lemma_pl_consts();
+    if msg.len() != 0 {
+        let n = if msg.len() < 16 { msg.len() as int } else { 16 };
+        let blk = le_nat(msg.subrange(0, n)) + pow256(n as nat);
+        lemma_poly_acc_lt(r, ((acc + blk) * r) % poly_p(), msg.subrange(n, msg.len() as int));
+    }
+}
+
+/// absorbing a ++ b == absorbing a, then b, when a consists of whole blocks
+pub proof fn lemma_poly_acc_concat(r: nat, acc: nat, a: Seq<u8>, b: Seq<u8>)
+    requires
+        a.len() % 16 == 0,
+    ensures
+        poly_acc(r, acc, a + b) == poly_acc(r, poly_acc(r, acc, a), b),
+    decreases a.len(),
+{
+    if a.len() == 0 {
+        assert(a + b =~= b);
+    } else {
+        let ab = a + b;
+        assert(ab.subrange(0, 16) =~= a.subrange(0, 16));
+        assert(ab.subrange(16, ab.len() as int) =~= a.subrange(16, a.len() as int) + b);
+        let blk = le_nat(a.subrange(0, 16)) + pow256(16);
+        lemma_poly_acc_concat(r, ((acc + blk) * r) % poly_p(), a.subrange(16, a.len() as int), b);
+    }
+}
+
+/// on whole blocks the RFC accumulator is the block-wise accumulator with the 2^128 bit set in every block
+pub proof fn lemma_poly_acc_blocks(r: nat, acc: nat, msg: Seq<u8>)
+    requires
+        msg.len() % 16 == 0,
+    ensures
+        poly_acc(r, acc, msg) as int == pl_blocks_acc(r as int, acc as int, msg, pl_c128()),
+    decreases msg.len(),
+{
+    lemma_poly_p_is_rfc_prime();
+    lemma_pl_consts();
+    if msg.len() != 0 {
+        let blk = le_nat(msg.subrange(0, 16)) + pow256(16);
+        let acc2 = ((acc + blk) * r) % poly_p();
+        lemma_poly_acc_blocks(r, acc2, msg.subrange(16, msg.len() as int));
+        assert(acc2 as int == ((acc as int + le_nat(msg.subrange(0, 16)) + pl_c128()) * (r as int)) % pl_p());
+    }
+}
+
+/// the already padded final block (message bytes, 0x01, zeros; no 2^128 bit) is the RFC's short last block
+pub proof fn lemma_poly_acc_last(r: nat, acc: nat, tail: Seq<u8>, padded: Seq<u8>)
+    requires
+        0 < tail.len() < 16,
+        padded.len() == 16,
+        padded.subrange(0, tail.len() as int) == tail,
+        padded[tail.len() as int] == 1,
+        forall|i: int| tail.len() < i < 16 ==> padded[i] == 0,
+    ensures
+        poly_acc(r, acc, tail) as int == pl_blocks_acc(r as int, acc as int, padded, 0),
+{
+    lemma_poly_p_is_rfc_prime();
+    lemma_pl_consts();
+    let n = tail.len() as int;
+    assert(tail.subrange(0, n) =~= tail);
+    assert(tail.subrange(n, n).len() == 0);
+    let blk = le_nat(tail) + pow256(n as nat);
+    assert(poly_acc(r, acc, tail) == ((acc + blk) * r) % poly_p()) by {
+        reveal_with_fuel(poly_acc, 2);
+    }
+    assert(padded.subrange(0, 16) =~= padded);
+    assert(padded.subrange(16, 16).len() == 0);
+    assert(pl_blocks_acc(r as int, acc as int, padded, 0) == ((acc as int + le_nat(padded) + 0) * (r as int)) % pl_p()) by {
+        reveal_with_fuel(pl_blocks_acc, 2);
+    }
+    // le(padded) = le(tail) + 256^n * (1 + 256 * le(zeros))
+    lemma_le_nat_split(padded, n);
+    let hi = padded.subrange(n, 16);
+    lemma_le_nat_split(hi, 1);
+    let one = hi.subrange(0, 1);
+    assert(one[0] == 1);
+    assert(one.subrange(1, 1).len() == 0);
+    assert(le_nat(one) == 1) by {
+        reveal_with_fuel(le_nat, 2);
+    }
+    let z = hi.subrange(1, hi.len() as int);
+    assert forall|i: int| 0 <= i < z.len() implies z[i] == 0 by {
+        assert(z[i] == padded[n + 1 + i]);
+    }
+    lemma_le_nat_zeros(z);
+    assert(pow256(1) == 256) by (compute_only);
+    assert(le_nat(hi) == 1);
+    assert(pow256(n as nat) * 1 == pow256(n as nat)) by (nonlinear_arith);
+}
+
+pub proof fn lemma_le_nat_zeros(z: Seq<u8>)
+    requires
+        forall|i: int| 0 <= i < z.len() ==> z[i] == 0,
+    ensures
+        le_nat(z) == 0,
+    decreases z.len(),
+{
+    if z.len() != 0 {
+        let t = z.subrange(1, z.len() as int);
+        assert forall|i: int| 0 <= i < t.len() implies t[i] == 0 by {
+            assert(t[i] == z[i + 1]);
+        }
+        lemma_le_nat_zeros(t);
+    }
+}
+
+// ------------------------------------------------------------------------------------------------
+// abstract state: (r, h mod p, buffered bytes) after absorbing the byte string `a`
+// ------------------------------------------------------------------------------------------------
+/// `hv` is the RFC accumulator over the complete blocks of `a`, `buf` holds the incomplete last block of `a`
+pub open spec fn pl_rep(rv: nat, hv: int, buf: Seq<u8>, a: Seq<u8>) -> bool {
+    let n = (a.len() / 16) * 16;
+    &&& buf =~= a.subrange(n as int, a.len() as int)
+    &&& hv == poly_acc(rv, 0, a.subrange(0, n as int))
+}
+
+pub proof fn lemma_rep_empty(rv: nat)
+    ensures
+        pl_rep(rv, 0, Seq::<u8>::empty(), Seq::<u8>::empty()),
+{
+    let a = Seq::<u8>::empty();
+    assert(a.subrange(0, 0).len() == 0);
+}
+
+/// buffering x without completing a block
+pub proof fn lemma_rep_extend(rv: nat, hv: int, buf: Seq<u8>, a: Seq<u8>, x: Seq<u8>)
+    requires
+        pl_rep(rv, hv, buf, a),
+        buf.len() + x.len() < 16,
+    ensures
+        pl_rep(rv, hv, buf + x, a + x),
+{
+    let n = (a.len() / 16) * 16;
+    let ax = a + x;
+    assert(buf.len() == a.len() - n);
+    assert((ax.len() / 16) * 16 == n);
+    assert(ax.subrange(0, n as int) =~= a.subrange(0, n as int));
+    assert(ax.subrange(n as int, ax.len() as int) =~= buf + x);
+}
+
+/// x completes the buffered block, which is absorbed
+pub proof fn lemma_rep_flush(rv: nat, hv: int, buf: Seq<u8>, a: Seq<u8>, x: Seq<u8>)
+    requires
+        pl_rep(rv, hv, buf, a),
+        buf.len() + x.len() == 16,
+    ensures
+        hv >= 0,
+        pl_rep(rv, poly_acc(rv, hv as nat, buf + x) as int, Seq::<u8>::empty(), a + x),
+{
+    let n = (a.len() / 16) * 16;
+    let ax = a + x;
+    assert(buf.len() == a.len() - n);
+    assert(ax.len() == n + 16);
+    assert((ax.len() / 16) * 16 == n + 16);
+    assert(ax.subrange(0, (n + 16) as int) =~= a.subrange(0, n as int) + (buf + x));
+    assert(ax.subrange((n + 16) as int, ax.len() as int) =~= Seq::<u8>::empty());
+    lemma_poly_acc_concat(rv, 0, a.subrange(0, n as int), buf + x);
+}
+
+/// whole blocks absorbed while nothing is buffered
+pub proof fn lemma_rep_blocks(rv: nat, hv: int, a: Seq<u8>, x: Seq<u8>)
+    requires
+        pl_rep(rv, hv, Seq::<u8>::empty(), a),
+        x.len() % 16 == 0,
+    ensures
+        hv >= 0,
+        pl_rep(rv, poly_acc(rv, hv as nat, x) as int, Seq::<u8>::empty(), a + x),
+{
+    let n = (a.len() / 16) * 16;
+    let ax = a + x;
+    assert(a.len() == n);
+    assert((ax.len() / 16) * 16 == ax.len());
+    assert(a.subrange(0, n as int) =~= a);
+    assert(ax.subrange(0, ax.len() as int) =~= a + x);
+    assert(ax.subrange(ax.len() as int, ax.len() as int) =~= Seq::<u8>::empty());
+    lemma_poly_acc_concat(rv, 0, a, x);
+}
+
+// ------------------------------------------------------------------------------------------------
+// Poly1305::new: the clamped r in 44/44/42-bit limbs
+// ------------------------------------------------------------------------------------------------
+pub proof fn lemma_new_r(key: Seq<u8>, t0: u64, t1: u64)
+    requires
+        key.len() >= 16,
+        t0 as nat == le_nat(key.subrange(0, 8)),
+        t1 as nat == le_nat(key.subrange(8, 16)),
+    ensures
+        pl_lv(
+            (t0 & 0xffc0fffffff) as int,
+            (((t0 >> 44) | (t1 << 20)) & 0xfffffc0ffff) as int,
+            ((t1 >> 24) & 0x00ffffffc0f) as int,
+        ) == poly_r(key),
+        pl_wf_r(t0 & 0xffc0fffffff, ((t0 >> 44) | (t1 << 20)) & 0xfffffc0ffff, (t1 >> 24) & 0x00ffffffc0f),
+{
+    lemma_pl_consts();
+    let k16 = key.subrange(0, 16);
+    lemma_le_nat_split(k16, 8);
+    assert(k16.subrange(0, 8) =~= key.subrange(0, 8));
+    assert(k16.subrange(8, 16) =~= key.subrange(8, 16));
+    lemma_le_nat_bound(k16);
+    let x: u128 = le_nat(k16) as u128;
+    assert(pl_c64() * (t1 as int) == (t1 as int) * pl_c64()) by (nonlinear_arith);
+    assert(x as int == t0 as int + (t1 as int) * pl_c64());
+    let r0 = t0 & 0xffc0fffffff;
+    let r1 = ((t0 >> 44) | (t1 << 20)) & 0xfffffc0ffff;
+    let r2 = (t1 >> 24) & 0x00ffffffc0f;
+    assert(x == (t0 as u128) + (t1 as u128) * 0x1_0000_0000_0000_0000u128);
+    assert((x & 0x0ffffffc_0ffffffc_0ffffffc_0fffffffu128) == (r0 as u128) + (r1 as u128) * 0x100000000000u128 + (r2 as u128)
+        * 0x1_0000_0000_0000_0000_0000_00u128 && r0 <= 0xffc0fffffff && r1 <= 0xfffffc0ffff && r2 <= 0x00ffffffc0f) by (bit_vector)
+        requires
+            x == (t0 as u128) + (t1 as u128) * 0x1_0000_0000_0000_0000u128,
+            r0 == t0 & 0xffc0fffffff,
+            r1 == ((t0 >> 44) | (t1 << 20)) & 0xfffffc0ffff,
+            r2 == (t1 >> 24) & 0x00ffffffc0f,
+    ;
+    assert(0x1_0000_0000_0000_0000_0000_00int == pl_c88()) by (compute_only);
+}
+
 } // verus!
